@@ -306,15 +306,17 @@ def explore(ctx):
         sel = select(d["tags"], rng, sample if not part.endswith(":small") else max(2, sample // 3))
         bump("B:points:" + part.split(":")[0], len(d["tags"]))
         rng.shuffle(sel)        # heavy and light mutations evenly over the chunks
-        for ch in chunks(sel, 150 if part.endswith(":full") else (100 if part.startswith("create") else 60)):
+        for ch in chunks(sel, 100 if part.endswith(":full") else (60 if part.startswith("create") else 80)):
             ops.append(dict(op, sel={"list": ch}))
             owner.append(part)
-    order = list(range(len(ops)))
-    rng.shuffle(order)          # spread heavy and light chunks over the workers
+    # one harness process per chunk, scheduled dynamically over 16 workers (chunks differ a lot in cost);
+    # the expensive worlds first
+    import concurrent.futures as cf
+    order = sorted(range(len(ops)), key=lambda i: (0 if owner[i].endswith(":full") else 1 if owner[i].startswith("create") else 2))
     resB = [None] * len(ops)
-    outs = C.run_exec_parallel([ops[i] for i in order], nproc=16, timeout=7200)
-    for i, r in zip(order, outs):
-        resB[i] = r
+    with cf.ThreadPoolExecutor(max_workers=16) as ex:
+        for i, r in zip(order, ex.map(lambda i: C.run_exec([ops[i]], timeout=7200)[0], order)):
+            resB[i] = r
     vterms, vmeta = [], []
     cterms, cmeta = [], []
     for part, op, r in zip(owner, ops, resB):
